@@ -252,8 +252,8 @@ struct VM {
                 uint64_t h = make_valid(x);
                 return h | ((uint64_t)(rd.u8() & 7) << 56);
             }
-            case 7: {  // digit 7 inside the resolution, or non-7 after it
-                uint64_t h = make_valid(x);
+            case 7: {  // digit 7 inside the resolution, or non-7 after it (half of the time below a pentagon, where digits are re-based)
+                uint64_t h = make_valid(x, -1, ((x >> 62) & 1) ? 2 : 0);
                 int pos = 1 + rd.u8() % 15;
                 int dg = (pos <= ref::res_of(h)) ? 7 : rd.u8() % 7;
                 h &= ~(7ULL << (3 * (15 - pos)));
